@@ -16,6 +16,9 @@ INFEASIBLE = {
     ('htp_ch_urlencoded_callback_request_line', 'tx->request_urlenp_query'): 'htp_urlenp_parse_complete can only fail through the unreachable default: arm of the parser state switch (_state is only ever KEY or VALUE)',
 }
 
+# premise of a suppression, re-checked on every run: every path to the suppressed free passes the failure edge of this call
+INFEASIBLE_PREMISE = {('htp_hook_register', '*hook'): 'htp_list_array_push'}
+
 
 def c18a(db, res, nl):
     res.rule('C18.a', 'every result of a may-fail allocation is NULL-tested before it is dereferenced, subscripted or passed to a parameter that is dereferenced before being tested')
@@ -105,6 +108,13 @@ def c18b(db, res):
                     res.holds('C18.b', key, 'the object holding the field is released by every caller right after (on the failure edge)', c['loc'])
                     continue
                 reason = INFEASIBLE.get((name, Pk))
+                if reason and (name, Pk) in INFEASIBLE_PREMISE:
+                    # the suppression stands only while its premise does: every way to this free is the failure of the named call
+                    need = INFEASIBLE_PREMISE[(name, Pk)]
+                    for atoms_, ev_, end_, seq_ in P.enum_paths_seq(f, (f.entry, -1), stop=lambda bb, ii, s2, b=b, i=i: (bb, ii) == (b, i), max_paths=20000):
+                        if end_[0] == 'stop' and not any(a_[0].startswith(need + '(') and ((a_[1] == '!=' and a_[2] == 'HTP_OK') or (a_[1] == '==' and a_[2] != 'HTP_OK')) for a_, e_ in atoms_):
+                            reason = None
+                            break
                 if reason:
                     res.info('C18.b', key, 'reported by the rule, infeasible: ' + reason, c['loc'])
                     continue
